@@ -639,7 +639,10 @@ pub fn compiler_tie(rep: &mut Report, n: usize, seed: u64, thorough: bool) {
             let b = boundaries(&hay);
             let start = *rng.pick(&b);
             let r = run_exec(&c.opt, Exec::Bt, &hay, start, 1);
-            if r.text == "fuel" {
+            if r.text == "fuel" || r.steps > 200_000 {
+                // the denotational model materialises every success of a sub-pattern: keep it to searches
+                // the engine finishes quickly (the executor models cover the expensive ones)
+                rep.count("semfind-skipped-heavy");
                 continue;
             }
             let first = r.text.split(' ').next().unwrap_or("").to_string();
